@@ -258,6 +258,14 @@ func runC12Swap(c *sim.Ctx, t *testing.T) {
 				}
 			})
 		}
+		if derive {
+			// a second host thread prepares another version at the same time (never swapped in):
+			// compiling is something several goroutines do at once with one shared interpreter
+			s.Go("deriver2", func(tk *sim.Task) {
+				sim.Yield("h#derive2")
+				c12Derive(va, vb)
+			})
+		}
 		s.Go("swapper", func(tk *sim.Task) {
 			next := vb
 			for k := 0; k < nswaps; k++ {
